@@ -510,17 +510,27 @@ def rule_R7(text, applied, arg=None):
 
 def rule_R7ref(text, applied):
     """`for &PAT in [&]E {` over a slice/Vec of Copy elements -> increment-first index loop (continue-safe):
-    `let mut iN_: usize = 0; while iN_ < E.len() { let PAT = E[iN_]; iN_ += 1;`"""
+    `let mut iN_: usize = 0; while iN_ < E.len() { let PAT = E[iN_]; iN_ += 1;`.  If E is not a plain path it
+    is first bound to a local (`let cN_ = E;`)."""
     cnt = 0
     while True:
         m_text = mask(text)
-        m = re.search(r"\bfor\s*&\s*(\w+|\([^)]*\))\s+in\s+&?\s*([\w\.]+?)\s*\{", m_text)
+        m = re.search(r"\bfor\s*&\s*(\w+|\([^)]*\))\s+in\s+", m_text)
         if not m:
             break
-        pat, coll = text[m.start(1):m.end(1)], "".join(m.group(2).split())
+        ob = next_body_brace(m_text, m.end())
+        if ob < 0:
+            raise ExtractError("R7ref: no loop body")
+        expr = text[m.end():ob].strip()
+        pat = text[m.start(1):m.end(1)]
         iv = f"j{cnt}_"
-        head = f"let mut {iv}: usize = 0; while {iv} < {coll}.len() {{ let {pat} = {coll}[{iv}]; {iv} += 1;"
-        text = text[:m.start()] + _keep_newlines(text[m.start():m.end()], head) + text[m.end():]
+        if re.fullmatch(r"&?\s*[\w\.]+", expr):
+            coll = "".join(expr.lstrip("&").split())
+            head = f"let mut {iv}: usize = 0; while {iv} < {coll}.len() {{ let {pat} = {coll}[{iv}]; {iv} += 1;"
+        else:
+            cv = f"c{cnt}_"
+            head = f"let {cv} = {expr}; let mut {iv}: usize = 0; while {iv} < {cv}.len() {{ let {pat} = {cv}[{iv}]; {iv} += 1;"
+        text = text[:m.start()] + _keep_newlines(text[m.start():ob + 1], head) + text[ob + 1:]
         cnt += 1
     if cnt:
         applied.append(f"R7refx{cnt}")
@@ -898,6 +908,15 @@ def rule_R8resize_veccap(text, applied, arg=None):
     return text
 
 
+def rule_R8contains(text, applied, arg=None):
+    """`X.contains(&Y)` on a Vec -> `HELPER(&X, Y)`; arg = HELPER (a verified linear-search helper for the
+    element type; slice::contains has no Verus contract)."""
+    t, n = _sub_masked(text, r"((?:\w+\.)*\w+)\s*\.\s*contains\(\s*&\s*(\w+)\s*\)", lambda m, s: f"{arg}(&{m.group(1)}, {m.group(2)})")
+    if n:
+        applied.append(f"R8contains({arg})x{n}")
+    return t
+
+
 def rule_subst(text, applied, arg=None):
     """literal type substitution OLD=>NEW inside the item (e.g. `Box<dyn Any>` => an opaque type parameter)."""
     old, new = arg.replace("~", " ").split("=>")
@@ -915,7 +934,7 @@ def rule_const(text, applied):
 RULES = {
     "R1": rule_R1, "R2": rule_R2, "R2ref": rule_R2ref, "R3": rule_R3, "R4": rule_R4, "R5": rule_R5,
     "R8max": rule_R8max, "R8cmpmax": rule_R8cmpmax, "R8resize_none": rule_R8resize_none, "R9": rule_R9, "R8position": rule_R8position, "R8rotate": rule_R8rotate, "R12refcell": rule_R12refcell,
-    "R8slice": rule_R8slice, "R7iter": rule_R7iter, "R8bitget": rule_R8bitget, "R12cell": rule_R12cell, "R8resize_veccap": rule_R8resize_veccap, "R8collectid": rule_R8collectid, "R8index": rule_R8index, "subst": rule_subst,
+    "R8slice": rule_R8slice, "R7iter": rule_R7iter, "R8bitget": rule_R8bitget, "R8contains": rule_R8contains, "R12cell": rule_R12cell, "R8resize_veccap": rule_R8resize_veccap, "R8collectid": rule_R8collectid, "R8index": rule_R8index, "subst": rule_subst,
     "R7ref": rule_R7ref, "R7array": rule_R7array, "R17": rule_R17,
     "R13": rule_R13, "R14": rule_R14, "R2set": rule_R2set, "R8first": rule_R8first, "R7": rule_R7, "R10": rule_R10, "R11": rule_R11,
 }
